@@ -157,7 +157,7 @@ func (r *Report) print(verbose bool) {
 	counts := map[string]int{}
 	for _, o := range r.Obligs {
 		counts[o.Status]++
-		if verbose || (o.Status != "discharged" && o.Status != "cover-ok") {
+		if verbose || (o.Status != "discharged" && o.Status != "cover-ok" && o.Status != "cover-ok-qf") {
 			fmt.Printf("%-12s %-8s %6.2fs %s   -- %s\n", o.Status, o.Solver, o.TimeS, o.Name, o.Text)
 		}
 	}
